@@ -128,6 +128,10 @@ func runC07(c *Ctx) {
 		}
 	})
 
+	c.rule("C07.O2", "index atomicity: a failed index update leaves no partial trace, because each index operation (addHeaders: entries + tip; truncateIndices: tip + deletions) is exactly one database transaction", func() {
+		c.indexAtomic()
+	})
+
 	c.rule("C07.V1", "appendRaw: the size used to cut a partial write off is the end-of-file offset before the write (the file is opened O_APPEND, so the current offset is not the end of file after open or after a truncate): Seek(0, io.SeekEnd) or Stat().Size()", func() {
 		fn := c.fn(fnAppend)
 		truncM := c.method("headerfs", "File", "Truncate")
@@ -222,4 +226,50 @@ func runC07(c *Ctx) {
 		c.guarded(fn, g, 1, "truncateHeaders / truncateIndices", eff, 2, gDominate)
 		c.guarded(fn, errNil("chainTip()", find(fn, callTo(tip)), 2), 1, "truncateHeaders / truncateIndices", eff, 2, gDominate)
 	})
+}
+
+// indexAtomic: the header index is changed by exactly one database transaction
+// per operation: addHeaders (entries + tip) and truncateIndices (tip + entry
+// deletion) each contain one walletdb.Update call, outside any loop, and no
+// further transaction is reachable from them. A failure or crash therefore
+// leaves either all or none of an operation's index changes.
+func (c *Ctx) indexAtomic() {
+	upd := c.funcObj("github.com/btcsuite/btcwallet/walletdb", "Update")
+	put := c.method("github.com/btcsuite/btcwallet/walletdb", "ReadWriteBucket", "Put")
+	for _, spec := range []struct {
+		name  string
+		entry *types.Func
+	}{
+		{"(*headerfs.headerIndex).addHeaders", c.funcObj("headerfs", "putHeaderEntryInBucket")},
+		{"(*headerfs.headerIndex).truncateIndices", c.funcObj("headerfs", "deleteHeaderEntries")},
+	} {
+		fn := c.fn(spec.name)
+		var sites []ssa.Instruction
+		var where []string
+		for f := range c.reachable(fn) {
+			for _, in := range find(f, callTo(upd)) {
+				sites = append(sites, in)
+				where = append(where, c.nm(f)+"@"+c.at(in))
+			}
+		}
+		sort.Strings(where)
+		okv := len(sites) == 1 && sites[0].Parent() == fn && ir.LoopHeaderOf(sites[0].Block()) == nil
+		c.verdict(okv, spec.name+" | one database transaction per index operation", c.P.Pos(fn.Pos()), "a single walletdb.Update, outside any loop",
+			fmt.Sprintf("the index operation spans %d database transactions (%s): a failure or crash between them leaves the hash index and the tip pointer inconsistent with each other and with the file", len(sites), join(where)), where...)
+		if !okv {
+			continue
+		}
+		// inside that one transaction: the entry mutation and the tip update
+		cls := closuresPassedTo(fn, upd)
+		okBoth := false
+		if len(cls) == 1 {
+			nEntry, nTip := 0, 0
+			for f := range c.reachable(cls[0]) {
+				nEntry += len(find(f, callTo(spec.entry)))
+			}
+			nTip = len(find(cls[0], callTo(put)))
+			okBoth = nEntry >= 1 && nTip >= 1
+		}
+		c.verdict(okBoth, spec.name+" | entries and tip pointer change in the same transaction", c.P.Pos(fn.Pos()), "entry mutation and tip Put inside the transaction closure", "the transaction no longer contains both the entry mutation and the tip update")
+	}
 }
